@@ -160,6 +160,40 @@ add("edge_list_descending", (SER, "sorted_edges = sorted([sorted(edge) for edge 
 add("edge_endpoints_descending", (SER, "sorted([sorted(edge) for edge in m.edges()])", "sorted([sorted(edge, reverse=True) for edge in m.edges()])"), fires={"R-LAYOUT"})
 add("node_attributes_descending", (SER, "for label, attrs in sorted(m.nodes(data=True)):", "for label, attrs in sorted(m.nodes(data=True), key=lambda t: -t[0]):"), fires={"R-LAYOUT"})
 
+add("refactor_attr_blocks_via_dict", (SER, '''    node_attribute_string = ""
+    for label, attrs in sorted(m.nodes(data=True)):
+        available_attrs = [
+            f"{_SERIALIZER_NODE_ATTRIBUTE_MAPPING[attr]}={attrs[attr]}"
+            for attr in _SERIALIZER_NODE_ATTRIBUTE_MAPPING
+            if attr in attrs
+        ]
+        if not available_attrs:
+            continue
+        node_attribute_string += f"({label + 1}:"
+        node_attribute_string += f"{','.join(available_attrs)})"
+
+    return node_attribute_string''', '''    entries: dict[int, str] = {}
+    for label, attrs in m.nodes(data=True):
+        available_attrs = [
+            f"{_SERIALIZER_NODE_ATTRIBUTE_MAPPING[attr]}={attrs[attr]}"
+            for attr in _SERIALIZER_NODE_ATTRIBUTE_MAPPING
+            if attr in attrs
+        ]
+        if available_attrs:
+            entries[label] = ",".join(available_attrs)
+
+    return "".join(f"({label + 1}:{entry})" for label, entry in sorted(entries.items()))'''), silent=True,
+    note="collect per-atom blocks in a dict keyed by label (any node order), emit in sorted label order")
+add("permute_private_generator", [(GU, '''    random.seed(
+        random_seed
+    )  # subsequent calls of random.shuffle(x[, random]) will now use fixed sequence of values for `random` parameter
+
+    m_permu = _permute_molecule(m)''', '''    rng = random.Random(random_seed)
+
+    m_permu = _permute_molecule(m, rng)'''), (GU, "            m_permu = _permute_molecule(m)", "            m_permu = _permute_molecule(m, rng)"),
+    (GU, "def _permute_molecule(m: nx.Graph) -> nx.Graph:", "def _permute_molecule(m: nx.Graph, rng: Any = random) -> nx.Graph:"),
+    (GU, "    random.shuffle(permuted_labels)", "    rng.shuffle(permuted_labels)")], silent=True, note="private seeded generator passed to every draw")
+
 # ---------------------------------------------------------------- bliss / index spaces
 add("bliss_explicit_inverse_igraph10", (CAN, '''    old_labels_in_canonical_order = m_igraph.permute_vertices(permutation).vs[
         "_nx_name"
